@@ -22,6 +22,19 @@ SPECS = [
          ],
          raises={'*': {'ensures': ["raised('e1') or raised('e2') or raised('h1')"]}},
          serves=PROP + ["C05"]),
+    dict(id='S-Define-nested-same',
+         # the same name defined again on a descendant: the inner definition ends with ITS element --
+         # between the end of the inner element and the end of the outer one the outer value is back
+         text='A<div tal:define="a e1"><p tal:define="a e2">%s</p>%s</div>B' % (H1, hole(2)),
+         own_names=['a'],
+         ensures=[
+             "trace('e1', 'e2', 'h1', 'h2')",
+             "visible_at('h1', 'a') is val(2)",
+             "visible_at('h2', 'a') is val(1)",
+             "visible('a') is visible0('a')",
+         ],
+         raises={'*': {'ensures': ["raised('e1') or raised('e2') or raised('h1') or raised('h2')"]}},
+         serves=PROP + ["C05"]),
     dict(id='S-Define-clauses',
          text='A<div tal:define="global b e2; a e1; local c e3; d e4">%s</div>B' % H1,
          own_names=['a', 'b', 'c', 'd'],
@@ -145,6 +158,13 @@ SPECS = [
          ],
          raises={'*': {'ensures': ["raised('e9') or raised('e10')"]}},
          serves=PROP + ["C02", "C07"]),
+    dict(id='S-Attribute-default-under-target',
+         # `default` keeps meaning "the static text" below an element that sets i18n:target (which binds
+         # a name of its own for the subtree)
+         text='A<div i18n:target="e1"><p k="s" tal:attributes="k default">x</p></div>B',
+         ensures=["evals(1) == 1", "S() == S0() + 'A<div><p k=\"s\">x</p></div>B'"],
+         raises={'*': {'ensures': ["raised('e1')"]}},
+         serves=PROP + ["C07", "C10"]),
     dict(id='S-Attribute-dict',
          # a dictionary-valued entry of tal:attributes: evaluated once, before the named entries
          # it may override; each named entry once
